@@ -263,8 +263,11 @@ class _AnnotationLinker(DocstringLinker):
     """
     def __init__(self, obj:'model.Documentable') -> None:
         self._obj = obj
-        self._module = obj.module
-        self._scope = obj.parent or obj
+        # The names of an annotation mean what they mean where the code is written: for 
+        # an object that a re-export has moved, that is the module it was defined in.
+        defining = obj.definingMod
+        self._module = defining if defining is not None else obj.module
+        self._scope = defining if defining is not None else (obj.parent or obj)
         self._module_linker = self._module.docstring_linker
         self._scope_linker = self._scope.docstring_linker
     
